@@ -44,6 +44,11 @@ var cores = []core{
 	{"loop-slice", "for x in long { s(1) }", false, 0, false},
 	{"loop-map", "for k, v in longmap { s(1) }", false, 0, false},
 	{"recursion", "func rec(i) { if i > %N { return 0 }; s(1); return rec(i + 1) }\nrec(0)", false, 0, false},
+	// recursion whose function bodies are a lone return statement (no if, loop or
+	// assignment anywhere in the cycle; the probe sits inside the returned expression, so the cancellation
+	// can land there): the return statement itself must look at the context
+	{"recursion-return-only", "func fib(n) { return n < 2 ? s(1) : fib(n - 1) + fib(n - 2) }\nfib(6)", false, 0, false},
+	{"recursion-return-only-mutual", "func ra(n, x) { return n < 1 ? x : rb(n - 1, x, s(1)) }\nfunc rb(n, x, y) { return ra(n, x + y) }\nra(%N, 0)", false, 0, false},
 	{"func-body-loops", "func spin() { for i = 0; i < %N; i++ { s(1) } }\nspin()", false, 0, false},
 	{"blocked-recv", "<-never", true, 0, false},
 	{"blocked-send", "never <- 1", true, 0, false},
